@@ -180,3 +180,16 @@ def run(F, ctx):
         if not ok:
             ctx.violation("%s:R-C17-d:metadata-file-shared-by-two-shards" % u.name, "%s derives the metadata file name from sanitize_name alone, which maps ':' and '/' to '_' and leaves '_' as it is: shards `a_b:c` and `a:b_c` (graph a_b / relation c, graph a / relation b_c) share `a_b_c.json`; the later save overwrites the earlier shard's metadata and that graph's relation is empty after a restart" % u.name.split("::")[-1], u.where())
     ctx.end_rule()
+
+    # ---- e: a dropped shard leaves nothing in the log
+    ctx.rule("R-C17-e", "delete_shard removes the shard's WAL entries on every success path (also entries still in the writer's buffer)", floor=1)
+    ds = [x for x in F.bodies if x.endswith("::delete_shard") and "FilePersist" in x and "{closure" not in x]
+    if not ds:
+        raise CheckError("FilePersist::delete_shard not found")
+    fd = F.fn(ds[0])
+    rse = [c for c in fd.normal_calls() if (c.resolved or "").endswith("PersistWal::remove_shard_entries")]
+    ok, wit = dur.must_pass(fd, [c.bb for c in rse]) if rse else (False, None)
+    ctx.site("delete_shard: every success path passes remove_shard_entries", fd.where(), ok=ok)
+    if not ok:
+        ctx.violation(ds[0] + ":R-C17-e:wal-entries-may-survive-the-drop", "delete_shard can return success without removing the shard's entries from the write-ahead log (e.g. when a look at the log *file* finds none - in batched durability mode they are still in the writer's buffer): they reach the file later, are replayed at the next start, and the dropped graph is back with its facts", fd.where(), detail="witness %s" % wit)
+    ctx.end_rule()
